@@ -167,9 +167,13 @@ func (in *inst) step(c *vt.Ctx, cs Case, o fsx.Op) (*vt.Deviation, bool) {
 			if p, f, l, r, same := fsx.Diff(before, after); !same {
 				return mk("fault-had-effect", fmt.Sprintf("the refused call changed the base at %s (%s): %q -> %q", p, f, l, r)), false
 			}
+			if (o.K == "FReadDir" || o.K == "FReaddirnames") && o.N > 0 {
+				in.rb.MarkPartial(o.H) // the refused call was a partial read: later reads are compared by count on both sides
+			}
 			// a refused open leaves no handle: the twin keeps a nil handle too
 			if o.K == "Open" || o.K == "Create" || o.K == "CreateTemp" {
 				in.rb.Handles[o.H] = (*os.File)(nil)
+				in.rb.ClearPartial(o.H)
 			}
 			return nil, false
 		}
@@ -332,7 +336,9 @@ func TestCheck(t *testing.T) {
 			for n := rapid.IntRange(1, 10).Draw(t, "n"); n > 0; n-- {
 				if opened && rapid.IntRange(0, 2).Draw(t, "handle") == 0 {
 					k := rapid.SampledFrom([]string{"FRead", "FWrite", "FSeek", "FStat", "FSync", "FTruncate", "FChmod", "FReadDir", "FClose", "FReadAt", "FWriteAt"}).Draw(t, "hk")
-					ops = append(ops, fsx.Op{K: k, H: 1, N: 4, Data: "z", Size: 2, Perm: 0o600, Off: 1})
+					// (empty buffers and zero sizes included: a call that has nothing to do is still a call)
+					ops = append(ops, fsx.Op{K: k, H: 1, N: rapid.SampledFrom([]int{4, 0, 1}).Draw(t, "hn"), Data: rapid.SampledFrom([]string{"z", ""}).Draw(t, "hd"),
+						Size: rapid.SampledFrom([]int64{2, 0}).Draw(t, "hs"), Perm: 0o600, Off: rapid.SampledFrom([]int64{1, 0, 9}).Draw(t, "ho")})
 					continue
 				}
 				if rapid.IntRange(0, 4).Draw(t, "keep") == 0 {
